@@ -31,7 +31,16 @@ def rd(arr, i):
         res = arr[i]
     for j, v in reversed(pend):
         res = z3.If(i == j, v, res)
+    if pend and len(RD_HINTS) < 400:
+        # reads at the written positions are natural instantiation points for quantifiers over the array
+        base = arr
+        for j, v in pend:
+            t = base[j]
+            RD_HINTS[t.get_id()] = t
     return res
+
+
+RD_HINTS = {}
 
 
 def _ix(i, off):
@@ -161,7 +170,7 @@ class ExprMixin:
             return v
         arr = st.harr(key, z3.ArraySort(z3.IntSort(), sort_of(ty)))
         v = SV(ty, rd(arr, ref))
-        if ty.kind in ("ref", "list") and not spec and not st.bound:
+        if ty.kind in ("ref", "list") and not spec and st.qdepth == 0:
             st.assume(z3.And(v.t >= 1, v.t < st.alloc()))
         return v
 
@@ -199,7 +208,7 @@ class ExprMixin:
 
     def list_len(self, lst, st, spec=False):
         l = rd(self.len_arr(st, lst.ty.arg), lst.t)
-        if not spec and not st.bound:
+        if st.qdepth == 0:
             st.assume(l >= 0)
         return l
 
@@ -209,7 +218,7 @@ class ExprMixin:
             raise Unsupported("element type of list unknown")
         t = rd(rd(self.content_arr(ety, st), lst.t), idx)
         v = SV(ety, t)
-        if ety.kind in ("ref", "list") and not spec and not st.bound:
+        if ety.kind in ("ref", "list") and not spec and st.qdepth == 0:
             st.assume(z3.And(t >= 1, t < st.alloc()))
         return v
 
@@ -630,6 +639,15 @@ class ExprMixin:
         if k in ("list", "seq", "tuple"):
             e, arr, off, ln = self.seq_of(container, st, spec)
             i = self.ctx.fresh("i", z3.IntSort())
+            st.qdepth += 1
+            try:
+                return self._contains_seq(e, arr, off, ln, i, item, st, spec)
+            finally:
+                st.qdepth -= 1
+        raise Unsupported("membership in %r" % (container.ty,))
+
+    def _contains_seq(self, e, arr, off, ln, i, item, st, spec):
+        if True:
             if e.kind == "ref" and not spec:
                 con = self.reg.method_contract(e.arg, "__eq__")
                 if con is not None and con.pure and con.returns:
@@ -731,6 +749,14 @@ class ExprMixin:
                     arr = st.harr("%s.has_%s" % (cd.name, key), z3.ArraySort(z3.IntSort(), z3.BoolSort()))
                     self.ctx.oblige(st, "safe:key", arr[base.t], text="key %r present" % key)
                 return self.read_field(base, key, st, spec)
+            if cd is not None and cd.rec and not isinstance(sl, ast.Constant):
+                kv = self.ev(sl, st, spec)
+                if is_sv(kv) and kv.ty.kind == "str":
+                    # dynamic string key: one uninterpreted map (object -> key -> value) per record class
+                    dk = "%s.$dyn" % cd.name
+                    arr = st.harr(dk, z3.ArraySort(z3.IntSort(), z3.ArraySort(z3.IntSort(), z3.RealSort())))
+                    self.ctx.models_used.add("dict access with a non-constant key: uninterpreted map (object, key) -> real")
+                    return SV(REAL, arr[base.t][kv.t])
             con = self.reg.method_contract(base.ty.arg, "__getitem__")
             if con is not None:
                 return self.apply_contract(con, [base, self.ev(sl, st, spec)], {}, st, "__getitem__", spec=spec)
@@ -747,7 +773,7 @@ class ExprMixin:
             e, arr, off, ln = self.seq_of(base, st, spec)
             idx = self.norm_index(sl, ln, st, spec)
             v = SV(e, rd(arr, _ix(idx, off)))
-            if e.kind in ("ref", "list") and not spec and not st.bound:
+            if e.kind in ("ref", "list") and not spec and st.qdepth == 0:
                 st.assume(z3.And(v.t >= 1, v.t < st.alloc()))
             return v
         raise Unsupported("subscript of %r" % (base.ty,))
